@@ -74,6 +74,19 @@ var registry = map[string]propCfg{
 	"C07": chainProp("one case = a seeded mixed block stream; for every block one FAILED transaction (rotating) is replaced on a twin replica by an empty transaction of the same sender and nonce and the two resulting state stores are compared key by key (only the sender's and the admins' balances may differ, by exactly the fee difference); later receipts must be equal and the failed transaction must not appear in the delivery set; the twin is then brought to the real block through the executor's rollback path", 800, 80000),
 	"C08": chainProp("one case = a seeded block stream of (a) structure- and byte-level mutations of well-formed transactions (nil/junk/truncated/oversized payloads, unknown transaction and VM types, nil or unknown destination, unknown methods, malformed service and IBTP identifiers, extreme indices and timeouts, junk IBTP types, mismatched or empty groups, junk proofs, junk or truncated WASM modules) and (b) direct calls of every reflection-enumerated contract method with typed arbitrary argument vectors (incl. wrong counts and types) by all roles, at any block position, mixed with valid traffic, some chains bound to WASM/FabricSim rules; oracle: one receipt per transaction in order, next height, an executed event within the watchdog (wedge), and the worker process survives (an un-recovered panic in a node goroutine kills it; the controller attributes the death to the announced run, resumes behind it and minimises the plan with one process per candidate)", 800, 80000),
 	"C14": chainProp("one case = a seeded block stream dominated by transfers (0, 1, small, exact balance, balance+1, 2^256, non-numeric; self transfers; to admins and contract-less accounts; bad signatures; gas price 0/1/50000; 1-4 admins) with single-transaction blocks mixed in; after every block the sum of all balances in the state store must not grow, no balance is negative, and for single-transfer blocks sender/receiver/fee/admin-split accounting is exact", 1000, 100000),
+	"C20": {
+		Engine: "ordersim", Level: "exploration",
+		Quick:       tierCfg{Runs: 320, BudgetS: 150, MinimiseS: 60},
+		Thorough:    tierCfg{Runs: 40000, BudgetS: 2400, MinimiseS: 300},
+		Rule:        "one case = a cluster of real ordering nodes (etcd-raft with 1, 3, 4 or 5 nodes, or solo) with a drawn order.toml (tick, election ticks, batch size and timeout, snapshot count, sync fetch size, timed blocks) inside one testing/synctest bubble; a driver, from a recorded choice tape, delivers/drops/duplicates/reorders messages of the simulated network, advances the fake clock, submits transactions (in order, stale, with gaps) to any node, runs the stub executors (execute, then ReportState possibly out of order), crashes and restarts nodes from a copy of their own storage (WAL, snapshots, applied-index db) at the executed height, isolates and heals nodes, then runs a fault-free tail; or the block syncer alone driven with (begin, end, fetch size) triples against failing peers; the delivery history is checked: heights handed to each incarnation are executed height +1, +2, ...; every height has identical content on all replicas; no transaction in two delivered blocks; executed chains are prefixes of the agreed chain; sync requests form an ascending partition within the fetch size and a failed range is retried unchanged; non-trivial = >=2 heights agreed (or >=2 sync requests); distinct = distinct event-log digests",
+		Assumptions: []string{"crash = the process stops at an event boundary, every completed write survives (WAL and db directories are copied for the next incarnation)", "the executor is a stub (executed chain + durable height per node); bounded progress after the last fault is measured as a diagnostic only, C20 is a safety property", "goroutine interleaving between two quiescent points is left to the Go scheduler; messages emitted concurrently are sorted canonically before the tape assigns their fates"},
+		Components: map[string]string{
+			"pkg/order/etcdraft (node, storage), etcd raft/wal/snap, goleveldb applied-index db, pkg/order/mempool, tx cache, pkg/order/solo, pkg/order/syncer": "real",
+			"network (OrderPeerManager)": "stub: SimNet (every delivery, loss, duplication, partition decided by the driver)",
+			"clock":                      "fake (testing/synctest)",
+			"ledger + executor":          "stub executor per node; feedhub wiring (Commit -> execute -> ReportState in a bare goroutine) re-implemented by the driver",
+		},
+	},
 }
 
 func chainProp(rule string, quick, thorough int) propCfg {
